@@ -102,6 +102,41 @@ def spawnCmd (threads per : Nat) (hasExport : Bool) (seed : Nat) : String :=
     | none => false
   s!"ids {joinNats ids} neg {neg} children {s.children} starts {joinNats starts} argsok {if argsok then 1 else 0}"
 
+/-- `spawnx ncalls argbase k namehex*k`: one thread issues `ncalls` thread-spawn calls one after the other on
+    a module whose export table has the given names (function of export `i` = marker `i`); every call runs
+    to completion and its thread starts before the next call.
+    answer: `ret r1,…` (as i32) ` ran idx:tid:arg:childOk,…` (sorted by tid) ` children N` -/
+def spawnxCmd (ncalls argbase : Nat) (names : List String) : String :=
+  let table : ExportTable := names.zipIdx.map fun (n, i) => (n, i)
+  let entry := lookupStart table
+  let has := entry.isSome
+  let runOne (s : Sys) (arg : Nat) : Sys :=
+    match exec has s (.call arg) with
+    | none => s
+    | some s1 =>
+      let i := s1.calls.length - 1
+      let rec go (fuel : Nat) (s : Sys) : Sys :=
+        match fuel with
+        | 0 => s
+        | fuel + 1 => match nextAction s i with
+          | some a => match exec has s a with
+            | some s' => go fuel s'
+            | none => s
+          | none => s
+      let s2 := go 8 s1
+      -- the created thread (if any) runs
+      match exec has s2 (.run (s2.threads.length - 1)) with
+      | some s3 => s3
+      | none => s2
+  let final := (List.range ncalls).foldl (fun s j => runOne s (argbase + j)) Sys.initial
+  let rets := final.calls.map fun c => match c with
+    | .done _ (some t) => toString t
+    | _ => "-1"
+  let ran := final.started.filterMap fun j => (final.threads[j]?).map fun t =>
+    s!"{entry.getD 99}:{t.tid}:{t.arg}:{if t.child < final.children then 1 else 0}"
+  let showL (l : List String) := if l.isEmpty then "-" else ",".intercalate l
+  s!"ret {showL rets} ran {showL ran} children {final.children}"
+
 def procCmd (ws : List String) : Option String :=
   match ws with
   | kind :: msize :: p :: b :: cP :: sP :: n :: rest =>
@@ -144,6 +179,12 @@ def procCmd (ws : List String) : Option String :=
   | ["exit", code] => do
     let code ← code.toNat?
     some s!"exited {procExitStatus code}"
+  | "spawnx" :: n :: ab :: k :: rest => do
+    let n ← n.toNat?
+    let ab ← ab.toNat?
+    let k ← k.toNat?
+    let names ← rest.mapM fun h => (unhex h).map fun bs => String.ofList (bs.map fun b => Char.ofNat b.toNat)
+    if names.length ≠ k then none else some (spawnxCmd n ab names)
   | ["spawn", t, p, e] => do
     some (spawnCmd (← t.toNat?) (← p.toNat?) ((← e.toNat?) != 0) 1)
   | ["spawn", t, p, e, seed] => do
